@@ -110,7 +110,7 @@ Step(c, d) ==
            tb2 == [x \in (DOMAIN tb0) \ gone |-> tb0[x]]
            obs == p @@ [cb |-> [i \in 1..Cardinality(gone) |-> Cb("term", SetToSeq(gone)[i], << >>, "TIMEOUT", "?")],
                         live |-> SetToSeq(DOMAIN tb2), chunks |-> 0, bytes |-> 0, buf |-> [c |-> << >>, s |-> << >>], thrown |-> ""]
-           j == A!Judge(cn0, [attach |-> attach, keepAlive |-> KeepAlive, maxChunks |-> MaxChunks, maxBytes |-> MaxBytes, ignore |-> ignore], obs)
+           j == A!Judge(cn0, [attach |-> attach, keepAlive |-> KeepAlive, maxChunks |-> MaxChunks, maxBytes |-> MaxBytes, ignore |-> ignore, termcb |-> TRUE], obs)
        IN /\ table' = tb2 /\ lastCleanup' = (IF sweepDue THEN 0 ELSE lc0)
           /\ ok' = j.ok /\ conns' = j.next
   ELSE LET s0 == IF found THEN tb0[c]
@@ -147,7 +147,7 @@ Step(c, d) ==
                         live |-> SetToSeq(DOMAIN tb2),
                         chunks |-> Cardinality(s1.cf.buf) + Cardinality(s1.sf.buf), bytes |-> SumBytes(s1.cf.buf) + SumBytes(s1.sf.buf),
                         buf |-> [c |-> ChunkRecs(c, "c", bufOf("c")), s |-> ChunkRecs(c, "s", bufOf("s"))], thrown |-> ""]
-           j == A!Judge(cn0, [attach |-> attach, keepAlive |-> KeepAlive, maxChunks |-> MaxChunks, maxBytes |-> MaxBytes, ignore |-> ignore], obs)
+           j == A!Judge(cn0, [attach |-> attach, keepAlive |-> KeepAlive, maxChunks |-> MaxChunks, maxBytes |-> MaxBytes, ignore |-> ignore, termcb |-> TRUE], obs)
        IN /\ table' = tb2 /\ lastCleanup' = (IF sweepDue THEN 0 ELSE lc0)
           /\ ok' = j.ok /\ conns' = j.next
 
